@@ -3,6 +3,8 @@ package rules
 import (
 	"fmt"
 	"go/ast"
+	"go/constant"
+	"go/token"
 	"go/types"
 	"strings"
 
@@ -348,23 +350,25 @@ func (c *Ctx) constructorChain() {
 		if f == nil {
 			continue
 		}
+		// the returned string as a sequence of parts (literal pieces, string terms, integers in decimal), whether it is
+		// written with fmt.Sprintf, with + and strconv, or a mix; compared with the wanted sequence over the parameters
 		ok := false
 		if len(f.Decl.Body.List) == 1 {
 			if ret, isRet := f.Decl.Body.List[0].(*ast.ReturnStmt); isRet && len(ret.Results) == 1 {
-				if call, isCall := ret.Results[0].(*ast.CallExpr); isCall && calleeName(f.Pkg.TypesInfo, call) == "fmt.Sprintf" {
-					if tv, has := f.Pkg.TypesInfo.Types[call.Args[0]]; has && tv.Value != nil && tv.Value.ExactString() == nf.format {
-						args := ""
-						for _, a := range call.Args[1:] {
-							args += types.ExprString(a) + ","
-						}
-						switch nf.name {
-						case "getPodName":
-							ok = args == "set.Name,ordinal,"
-						default:
-							ok = args == "claim.Name,set.Name,ordinal,"
-						}
-					}
+				ffn := c.E.FnOf(f)
+				got, okParts := stringParts(f.Pkg.TypesInfo, ffn, ret.Results[0])
+				var ps []*ast.Ident
+				for _, pf := range f.Decl.Type.Params.List {
+					ps = append(ps, pf.Names...)
 				}
+				var want []string
+				switch {
+				case nf.name == "getPodName" && len(ps) == 2:
+					want = []string{"s:" + c.WantTerm(ffn, ret.Pos(), "$1.Name", ps[0]).Key(), "l:-", "d:" + ffn.Term(ps[1]).Key()}
+				case nf.name == "getPersistentVolumeClaimName" && len(ps) == 3:
+					want = []string{"s:" + c.WantTerm(ffn, ret.Pos(), "$1.Name", ps[1]).Key(), "l:-", "s:" + c.WantTerm(ffn, ret.Pos(), "$1.Name", ps[0]).Key(), "l:-", "d:" + ffn.Term(ps[2]).Key()}
+				}
+				ok = okParts && want != nil && strings.Join(got, "|") == strings.Join(want, "|")
 			}
 		}
 		c.Check(ok, "C06.1-name-functions", nf.name, f.Decl.Pos(), "a fixed format over (template name,) set name and ordinal: a pure function, so the same ordinal always gets the same names", nf.name+" is not the fixed name format")
@@ -653,3 +657,115 @@ func (c *Ctx) claimBuilder() {
 }
 
 func termIs(a, b *gf.Term) bool { return a != nil && b != nil && a.Key() == b.Key() }
+
+// stringParts flattens a string-valued expression into parts: "l:<text>" literal pieces (adjacent ones
+// merged), "s:<term key>" string terms, "d:<term key>" integers printed in decimal. It understands
+// fmt.Sprintf with %s, %d and %v verbs, +, strconv.Itoa / FormatInt(x, 10) and fmt.Sprint of one argument.
+func stringParts(info *types.Info, fn *gf.Fn, e ast.Expr) ([]string, bool) {
+	var out []string
+	ok := true
+	lit := func(t string) {
+		if t == "" {
+			return
+		}
+		if n := len(out); n > 0 && strings.HasPrefix(out[n-1], "l:") {
+			out[n-1] += t
+			return
+		}
+		out = append(out, "l:"+t)
+	}
+	isInt := func(x ast.Expr) bool {
+		b, isB := info.TypeOf(x).Underlying().(*types.Basic)
+		return isB && b.Info()&types.IsInteger != 0
+	}
+	isStr := func(x ast.Expr) bool {
+		b, isB := info.TypeOf(x).Underlying().(*types.Basic)
+		return isB && b.Info()&types.IsString != 0
+	}
+	var walk func(x ast.Expr)
+	walk = func(x ast.Expr) {
+		x = ast.Unparen(x)
+		if tv, has := info.Types[x]; has && tv.Value != nil && tv.Value.Kind() == constant.String {
+			lit(constant.StringVal(tv.Value))
+			return
+		}
+		switch y := x.(type) {
+		case *ast.BinaryExpr:
+			if y.Op == token.ADD && isStr(y) {
+				walk(y.X)
+				walk(y.Y)
+				return
+			}
+		case *ast.CallExpr:
+			switch calleeName(info, y) {
+			case "fmt.Sprintf":
+				tv, has := info.Types[y.Args[0]]
+				if !has || tv.Value == nil {
+					ok = false
+					return
+				}
+				format := constant.StringVal(tv.Value)
+				argi := 1
+				for i := 0; i < len(format); i++ {
+					if format[i] != '%' {
+						lit(string(format[i]))
+						continue
+					}
+					if i+1 >= len(format) {
+						ok = false
+						return
+					}
+					i++
+					switch format[i] {
+					case '%':
+						lit("%")
+					case 's', 'd', 'v':
+						if argi >= len(y.Args) {
+							ok = false
+							return
+						}
+						a := y.Args[argi]
+						argi++
+						switch {
+						case isInt(a) && format[i] != 's':
+							out = append(out, "d:"+fn.Term(a).Key())
+						case isStr(a) && format[i] != 'd':
+							walk(a)
+						default:
+							ok = false
+						}
+					default:
+						ok = false
+					}
+				}
+				return
+			case "strconv.Itoa":
+				out = append(out, "d:"+fn.Term(y.Args[0]).Key())
+				return
+			case "strconv.FormatInt":
+				if tv, has := info.Types[y.Args[1]]; has && tv.Value != nil && tv.Value.ExactString() == "10" {
+					out = append(out, "d:"+fn.Term(y.Args[0]).Key())
+					return
+				}
+			case "fmt.Sprint":
+				if len(y.Args) == 1 {
+					if isInt(y.Args[0]) {
+						out = append(out, "d:"+fn.Term(y.Args[0]).Key())
+						return
+					}
+					if isStr(y.Args[0]) {
+						walk(y.Args[0])
+						return
+					}
+				}
+			}
+		}
+		if isStr(x) {
+			out = append(out, "s:"+fn.Term(x).Key())
+			return
+		}
+		ok = false
+	}
+	walk(e)
+	return out, ok
+}
